@@ -109,6 +109,44 @@ func genC10(tier, out string, sum *Summary) {
 			relate(flat, paren, tree)
 		}
 	}
+	// operands that FAIL (statically: unknown function, arity, argument kind, step zero; or when evaluated): the
+	// outcome that the implied parentheses must not change includes which error it is
+	{
+		faults := []string{"nosuch(b)", "length(b, c)", "sort_by(b, c)", "b[::0]", "abs('x')", "$undef", "(`1` / `0`)", "map(b, c)", "length()", "b[1:2:0].c", "not_null()"}
+		k := 0
+		for _, o1 := range binSpellings {
+			for _, o2 := range binSpellings {
+				if o1.text != o1.ascii || o2.text != o2.ascii {
+					continue
+				}
+				for pos := 0; pos < 3; pos++ {
+					k++
+					f := faults[k%len(faults)]
+					xs := []string{"a", "b", "c"}
+					xs[pos] = f
+					flat := xs[0] + " " + o1.text + " " + xs[1] + " " + o2.text + " " + xs[2]
+					var paren string
+					if o1.level >= o2.level {
+						paren = "(" + xs[0] + " " + o1.text + " " + xs[1] + ") " + o2.text + " " + xs[2]
+					} else {
+						paren = xs[0] + " " + o1.text + " (" + xs[1] + " " + o2.text + " " + xs[2] + ")"
+					}
+					sum.count("failing-operands")
+					relate(flat, paren, nil)
+					xs[pos] = "(" + f + ")"
+					relate(flat, xs[0]+" "+o1.text+" "+xs[1]+" "+o2.text+" "+xs[2], nil)
+					relate(flat, "("+flat+")", nil)
+				}
+			}
+		}
+		for _, f := range faults {
+			for _, ctx := range []string{"!%s", "- %s", "[%s]", "{k: %s}", "a[?%s]", "abs(%s)", "a | %s", "%s | a", "let $v = %s in a", "let $v = a in %s", "sort_by(a, &%s)", "a[*].[%s]", "a && !%s"} {
+				flat := fmt.Sprintf(ctx, f)
+				relate(flat, fmt.Sprintf(ctx, "("+f+")"), nil)
+				relate(flat, fmt.Sprintf(ctx, "(("+f+"))"), nil)
+			}
+		}
+	}
 	// "for all operand expressions": the same pairs with operands of every syntactic shape that evaluates to
 	// the plain field (selectors, indexes, calls, multi-selects, literals in the data, pipes in parentheses)
 	shapes := []string{"%s", "(%s)", "@.%s", "[%s][0]", "{k: %s}.k", "not_null(%s)", "[%s, `0`][0]", "[%s][-1]", "[[%s]][0][0]", "(%s | @)", "{k: [%s]}.k[0]", "([%s][0:1])[0]", "([%s][?`true`])[0]", "not_null(`null`, %s)", "([%s] | [0])"}
